@@ -7,10 +7,21 @@ check.setup_runtime()
 from checks.registry import spec_for
 from run import mqcase
 from sim.core import EPOCH_NS
-body = json.load(open(sys.argv[1]))
 kinds = set(sys.argv[2].split(',')) if len(sys.argv) > 2 else {'in', 'pub', 'emit', 'log', 'fault', 'start', 'life', 'pubx', 'inject'}
-spec = spec_for(body['property'], 'quick')
-res = mqcase.run_case(spec, body.get('seed'), body['replay'], keep_world=True)
+if ':' in sys.argv[1] and not os.path.exists(sys.argv[1]):     # PROP:idx[:tier] -> generate that case
+    from sim.choice import derive_seed
+    parts = sys.argv[1].split(':')
+    spec = spec_for(parts[0], parts[2] if len(parts) > 2 else 'quick')
+    seed = derive_seed(int(os.environ.get('VERIF_SEED') or 0), parts[0], int(parts[1]))
+    res = mqcase.run_case(spec, seed, None, keep_world=True)
+    sc = res['scenario']
+    for n in sc['order']:
+        print('  ', n, json.dumps({k: v for k, v in sc['nodes'][n].items() if not k.startswith('_')}))
+    print('  knobs', sc.get('knobs'), 'faults', sc.get('faults'), 'n_frames', sc.get('n_frames'), 'stop', res['stop'])
+else:
+    body = json.load(open(sys.argv[1]))
+    spec = spec_for(body['property'], 'quick')
+    res = mqcase.run_case(spec, body.get('seed'), body['replay'], keep_world=True)
 w = res['_world']
 for e in w.events:
     if e[0] not in kinds:
